@@ -50,6 +50,13 @@ GEvidenceO == \E v \in {1, 3, 4}, id \in DOMAIN msgs, e \in EvValues :
                 /\ Len(EvOrder) < 4 /\ v \notin jailed /\ msgs[id].ev[v] # e
                 /\ Evidence(v, id, e) /\ H("Evidence", [v |-> v, id |-> id, e |-> e])
 GNextO == GPut \/ GEvidenceO \/ GEndBlockT \/ (height = 1 /\ Len(EvOrder) >= 2 /\ Advance(349) /\ H("Advance", [dh |-> 349]))
+\* "reelect" family: estimates, election, late estimates, re-assignment, another end block (an elected estimate must
+\* survive everything that happens to the message afterwards); one history per transition that follows a re-assignment
+HasReassign == \E i \in DOMAIN hist : hist[i].act = "Reassign"
+GEstimateOk == \E v \in {1, 2, 3}, id \in SlcIds, x \in EstValues : EstOk(v, id) /\ Estimate(v, id, x) /\ H("Estimate", [v |-> v, id |-> id, x |-> x])
+GNextE == \/ (~HasReassign /\ (GPut \/ GEstimateOk \/ GEndBlock))
+          \/ (GReassign /\ PrintT(<<"HIST", ToJson(hist')>>))
+          \/ (HasReassign /\ (GEstimateOk \/ GEndBlockT))
 GInit == Init /\ hist = <<>>
 Last == IF hist = <<>> THEN <<>> ELSE hist[Len(hist)]
 GView == <<Last, res, msgs, nextId, keyver, refHeight, jailed, height>>
